@@ -42,7 +42,7 @@ def get_stdin(binary: bool = False) -> TextIO | BinaryIO:
 
 def is_stdout(fp: TextIO | BinaryIO) -> bool:
     """Returns True if ``fp`` is the stdout stream."""
-    return fp in (sys.stdout, sys.stdout.buffer) or hasattr(fp, "_is_stdout")
+    return fp in (sys.stdout, getattr(sys.stdout, "buffer", None)) or hasattr(fp, "_is_stdout")
 
 
 def to_bytes(value):
